@@ -1476,11 +1476,11 @@ def _chain(tr: Tr, side: dict) -> list[str]:
     if j is None or j[0] != A:
         tr.err(inner, f'walk_folder_repeat: the member is not asked for os.path.join(prefix, {A})...')
     jops2 = j[1]
-    rel = ast.unparse(inner.body[0].value.value.args[1])
+    rel_e = inner.body[0].value.value.args[1]
+    rel = ast.unparse(rel_e)
     if rel == f"os.path.relpath({F}.path, {P}).replace('\\\\', '/')":
         mode = 'RelPath'
-    elif rel == (f"'/'.join({F}.path.replace('\\\\', '/').split('/')[len([_C0 for _C0 in {P}.replace('\\\\', '/').split('/') "
-                 f"if _C0 not in ('', '.')]):])"):
+    elif _is_drop_segs(rel_e, F, P):
         mode = 'RelDropSegs'
     else:
         tr.err(inner, f'walk_folder_repeat: unrecognised relative-path expression {rel[:120]}')
@@ -1489,6 +1489,74 @@ def _chain(tr: Tr, side: dict) -> list[str]:
     out.append(f'Definition chain_relmode : relmode := {mode}.')
     side['chain_walk'] = {'forward': fwd, 'join_ops': jops2, 'relmode': mode, 'line': lp.lineno}
     return out
+
+
+def _slash_split(e, base: str) -> bool:
+    """<base>.replace('\\', '/').split('/')"""
+    return (isinstance(e, ast.Call) and isinstance(e.func, ast.Attribute) and e.func.attr == 'split' and len(e.args) == 1
+            and not e.keywords and _is_const(e.args[0], '/') and isinstance(e.func.value, ast.Call)
+            and isinstance(e.func.value.func, ast.Attribute) and e.func.value.func.attr == 'replace'
+            and len(e.func.value.args) == 2 and not e.func.value.keywords and _is_const(e.func.value.args[0], '\\')
+            and _is_const(e.func.value.args[1], '/') and _dotted(e.func.value.func.value) == base)
+
+
+def _pred_is(test, var: str, ref, ref_consts=('', '.')) -> bool:
+    """Does the test (built from the truth value of the string `var`, comparisons of `var` with string literals by == != in
+    not in, and and/or/not) denote the predicate `ref`?  In that fragment the value depends only on which of the mentioned
+    literals `var` equals, so evaluating both on the literals either of them mentions (`ref_consts` for the reference), the
+    empty string and one fresh string decides the question."""
+    consts: set = {''} | set(ref_consts)       # the literals the reference predicate itself distinguishes
+
+    def ok(t) -> bool:
+        if isinstance(t, ast.Name):
+            return t.id == var
+        if isinstance(t, ast.UnaryOp) and isinstance(t.op, ast.Not):
+            return ok(t.operand)
+        if isinstance(t, ast.BoolOp):
+            return all(ok(v) for v in t.values)
+        if isinstance(t, ast.Compare) and len(t.ops) == 1 and _name(t.left) == var:
+            c = t.comparators[0]
+            if isinstance(t.ops[0], (ast.Eq, ast.NotEq)) and isinstance(c, ast.Constant) and isinstance(c.value, str):
+                consts.add(c.value)
+                return True
+            if isinstance(t.ops[0], (ast.In, ast.NotIn)) and isinstance(c, (ast.Tuple, ast.List, ast.Set)) \
+                    and all(isinstance(x, ast.Constant) and isinstance(x.value, str) for x in c.elts):
+                consts.update(x.value for x in c.elts)
+                return True
+        return False
+
+    if not ok(test):
+        return False
+    fresh = 'x'
+    while fresh in consts:
+        fresh += 'x'
+    code = compile(ast.Expression(body=test), '<pred>', 'eval')
+    return all(bool(eval(code, {'__builtins__': {}}, {var: v})) == bool(ref(v)) for v in sorted(consts) + [fresh])
+
+
+def _is_drop_segs(e, F: str, P: str) -> bool:
+    """'/'.join(F.path.replace('\\', '/').split('/')[N:]) with N = len([v for v in P.replace('\\', '/').split('/') if <v is
+    neither '' nor '.'>]) - the filter in any spelling (decided by _pred_is)."""
+    if not (isinstance(e, ast.Call) and isinstance(e.func, ast.Attribute) and e.func.attr == 'join' and _is_const(e.func.value, '/')
+            and len(e.args) == 1 and not e.keywords and isinstance(e.args[0], ast.Subscript) and isinstance(e.args[0].slice, ast.Slice)):
+        return False
+    sub = e.args[0]
+    sl = sub.slice
+    if sl.upper is not None or sl.step is not None or sl.lower is None or not _slash_split(sub.value, f'{F}.path'):
+        return False
+    n = sl.lower
+    if not (isinstance(n, ast.Call) and _name(n.func) == 'len' and len(n.args) == 1 and not n.keywords and isinstance(n.args[0], ast.ListComp)):
+        return False
+    lc = n.args[0]
+    if len(lc.generators) != 1 or lc.generators[0].is_async or not isinstance(lc.generators[0].target, ast.Name):
+        return False
+    g = lc.generators[0]
+    v = g.target.id
+    if not _slash_split(g.iter, P) or not g.ifs:
+        return False
+    test = g.ifs[0] if len(g.ifs) == 1 else ast.BoolOp(op=ast.And(), values=list(g.ifs))
+    import copy
+    return _pred_is(ast.fix_missing_locations(copy.deepcopy(test)), v, lambda s: s not in ('', '.'))
 
 
 def _dedup(tr: Tr, fn: ast.FunctionDef):
